@@ -388,8 +388,8 @@ impl Sys for UndoSys {
 pub fn run(opts: &Opts) -> i32 {
     let rep = Report::new("C07", "model_checking", opts);
     rep.set("exhaustive", true);
-    rep.set("rule", "histories over {commit one valid change made with the real TaskData API, with or without a leading undo point; undo = get_undo_operations + commit_reversed_operations; stale undo (fetch, commit something, reverse the stale list); fetch + sync + reverse; sync} from an empty and from a populated synced replica, on the in-memory and the SQLite storage; plus one undo span of 1200 (thorough 6000) operations over two commits on both storages; oracle: harness-kept image of the task set at every undo point, exact unsynchronized list, result flags, and the versions a harness server receives at the next sync = documented conversion of the remaining operations; non-trivial = states with an undo point followed by changes");
-    rep.assume("the lone-UndoPoint edge (fetched list is just an undo point) is outside the statement's 'sequence of changes' and not asserted");
+    rep.set("rule", "histories over {commit one valid change made with the real TaskData API, with or without a leading undo point; a commit of a lone undo point (spans without changes, consecutive undo points); undo = get_undo_operations + commit_reversed_operations; stale undo (fetch, commit something, reverse the stale list); fetch + sync + reverse; sync} from an empty and from a populated synced replica, on the in-memory and the SQLite storage; plus one undo span of 1200 (thorough 6000) operations over two commits on both storages; oracle: on every state, repeated undo (fetch + reverse until nothing is offered) must make progress every time and end with no unsynchronized operation and the tasks of the last sync; harness-kept image of the task set at every undo point, exact unsynchronized list, result flags, and the versions a harness server receives at the next sync = documented conversion of the remaining operations; non-trivial = states with an undo point followed by changes");
+    rep.assume("for a span without changes (the fetched list is a lone undo point) the reported flag is not asserted (not a 'sequence of changes'); that the undo point is withdrawn and nothing else changes is");
     let q = opts.tier == Tier::Quick;
     let spaces: Vec<(&str, UndoSys, usize)> = vec![
         ("mem-empty", UndoSys::new(Kind::Mem, false, true), if q { 6 } else { 8 }),
